@@ -282,15 +282,30 @@ def run_unit(spec: Spec, repo: Repo | None = None, timeout_s=20.0, want_smt2=Fal
     alts = spec.alternatives() if hasattr(spec, "alternatives") else []
     if not alts or _clean(first):
         return first
+    tried = []
     for alt in alts:
         r = _run_unit(alt, repo, timeout_s, want_smt2)
         comps = alt.companions() if hasattr(alt, "companions") else []
         # an alternative that rests on an invariant is admissible only if the companion units that establish it hold too
-        if _clean(r) and all(_clean(_run_unit(c, repo, timeout_s, want_smt2)) for c in comps):
+        comp_res = [_run_unit(c, repo, timeout_s, want_smt2) for c in comps]
+        if _clean(r) and all(_clean(c) for c in comp_res):
             r.unit = first.unit
             r.notes.append(f"satisfied by the alternative specification '{alt.unit_name()}' (primary: '{spec.unit_name()}')")
             return r
-    first.notes.append(f"none of the {len(alts)} alternative specifications holds either")
+        tried.append((alt, r, comp_res))
+    # No admissible specification is proved. The unit is REFUTED only if every one of them is refuted; an alternative that
+    # is merely undecided (unsupported construct, timeout) could be the one the code implements.
+    def _refuted(r):
+        return any(o.verdict.status == "refuted" for o in r.obligations)
+
+    for alt, r, comp_res in tried:
+        if not r.error and not _refuted(r) and not any(_refuted(c) for c in comp_res):
+            r.unit = first.unit
+            if not r.unsupported:
+                r.unsupported = "an alternative specification is neither proved nor refuted"
+            r.notes.append(f"the primary specification is refuted, the alternative '{alt.unit_name()}' is undecided: the unit is undecided")
+            return r
+    first.notes.append(f"none of the {len(alts)} alternative specifications holds either (each is refuted)")
     return first
 
 
